@@ -1,9 +1,24 @@
 """What MANIFEST.json claims, per property."""
 HOOK_COMMITS = ["77b2c42", "6128e10", "5f416f7", "71aa134"]
+FIX_COMMITS = ["5da2d24", "9b55744"]
 NOTES = ("Every check: TLC model-checks the module's design on small constants, then binds it to /repo's current working "
          "tree (rebuilt on every run with -tags verif). Exit 2 = infrastructure problem, never a verdict.")
 NOT_APPLICABLE = {}
 CHECKS = {
+    "C07": {
+        "text": "FzfOutput.tla defines stdout (query line, expect line, print queue, selection in selection order or current line; "
+                "original record, escape sequences removed under --ansi, --accept-nth field) and the exit status for every way a "
+                "session can end, for --filter and for the --select-1/--exit-0 short cut; records are sequences of typed pieces so "
+                "that 'original bytes', 'stripped text' and 'field N' are spec-level notions. TLC model-checks the framing "
+                "invariants over all selection histories of a small session model, then judges what the real binary printed and "
+                "returned: filter runs on all three code paths (sorted, streaming, unsorted non-streaming) across option "
+                "combinations, auto-accept runs, and tmux-driven interactive sessions whose final editor state comes from the hook "
+                "trace (how the session ends is computed by FzfEditor.Exits).",
+        "design_ref": "DESIGN.md §6 C07",
+        "note": "Matching abstracted to a marker piece; order of sorted filter output compared as multiset (C04 owns order); "
+                "field expressions limited to single field numbers with a literal delimiter (C10 owns ranges). Trusted: TLC, tmux, hooks.",
+        "technique": "TLA+ spec + TLC MC; TLC judges recorded outputs/exit codes of the real binary (filter, auto-accept, interactive)",
+    },
     "C09": {
         "text": "FzfEditor.tla defines every bindable editing / navigation / selection action, the list update and the renderer's "
                 "cursor-scroll clamp as operators over the state (query, cursor, yank buffer, list cursor, scroll offset, ordered "
